@@ -48,7 +48,23 @@ var rpcErrors = []struct {
 	DC   int
 }{{400, "INTERNAL_SERVER_ERROR", 0}, {303, "PHONE_MIGRATE_2", 2}, {303, "PHONE_MIGRATE_9", 0}, {303, "NETWORK_MIGRATE_2", 2}, {303, "USER_MIGRATE_2", 2}, {420, "FLOOD_WAIT_3", 0}, {303, "FILE_MIGRATE_2", 2}, {500, "PHONE_MIGRATE_2", 2}}
 
+// otherObjects: well-formed objects of registered constructors that answer no step of the exchange
+var otherObjects = []struct {
+	Name string
+	Body []byte
+}{
+	{"null", le32(0x56730bcc)}, {"boolTrue", le32(0x997275b5)}, {"boolFalse", le32(0xbc799737)},
+	{"pong", append(le32(0x347773c5), make([]byte, 16)...)}, {"msgs_ack of nothing", append(le32(0x62d6b459), append(le32(0x1cb5c415), 0, 0, 0, 0)...)},
+	{"updatesTooLong", le32(0xe317af7e)}, {"new_session_created", append(le32(0x9ec20908), make([]byte, 24)...)},
+	{"rpc_result of null", append(append(le32(0xf35c6d01), make([]byte, 8)...), le32(0x56730bcc)...)},
+	{"req_pq (the request echoed)", append(le32(0x60469778), make([]byte, 16)...)},
+	{"dh_gen_ok with zero fields", append(le32(0x3bcbf734), make([]byte, 48)...)}, {"resPQ with zero fields", append(append(le32(0x05162463), make([]byte, 32)...), append([]byte{0, 0, 0, 0}, append(le32(0x1cb5c415), 0, 0, 0, 0)...)...)},
+}
+
+func le32(v uint32) []byte { return []byte{byte(v), byte(v >> 8), byte(v >> 16), byte(v >> 24)} }
+
 var catalogue = []faultClass{
+	{"resPQ", "kind", "other-object", len(otherObjects)}, {"dhParams", "kind", "other-object", len(otherObjects)}, {"dhGen", "kind", "other-object", len(otherObjects)},
 	{"resPQ", "nonce", "flip", 128}, {"resPQ", "nonce", "random", 0}, {"resPQ", "nonce", "other", 0}, {"resPQ", "nonce", "zero", 0},
 	{"resPQ", "fingerprints", "other-clients-key", 0},
 	{"resPQ", "fingerprints", "empty", 0}, {"resPQ", "fingerprints", "one-wrong", 0}, {"resPQ", "fingerprints", "several-wrong", 0}, {"resPQ", "fingerprints", "flip-fp", 64},
@@ -179,6 +195,9 @@ func build(src scen.Source, keys []refsrv.RSAKeyJSON, fc faultClass, bit int) (*
 			sc.HSDCs = []int{re.DC}
 		}
 	}
+	if fc.Kind == "other-object" {
+		sc.Fault.Raw, sc.Fault.Text = otherObjects[bit%len(otherObjects)].Body, otherObjects[bit%len(otherObjects)].Name
+	}
 	if fc.Kind == "other-clients-key" {
 		// a second client object of the process, configured with another key, has already used it; the server under test
 		// offers the fingerprint of that key only
@@ -241,7 +260,7 @@ func TestC07(t *testing.T) {
 			switch {
 			case fc.Bits == 0:
 				bits = []int{0}
-			case run.Thorough() && fc.Bits <= 160:
+			case (run.Thorough() && fc.Bits <= 160) || fc.Kind == "other-object":
 				for b := 0; b < fc.Bits; b++ {
 					bits = append(bits, b)
 				}
